@@ -419,6 +419,7 @@ theorem step_frame (C : Crypto) (s s' : State) (op : Op) (h : step C s op = .ok 
     split at h
     · simp only [Except.ok.injEq] at h; subst h; exact ⟨rfl, rfl, rfl, rfl, rfl⟩
     · cases h
+  | other x => simp [step] at h
 
 theorem step'_frame (C : Crypto) (s : State) (op : Op) :
     (step' C s op).self = s.self ∧ (step' C s op).template = s.template ∧ (step' C s op).amount = s.amount ∧
@@ -448,7 +449,7 @@ def okClaimFor (C : Crypto) (s : State) (op : Op) (e : Bytes) : Nat :=
     match claim C s sender eth sig with
     | .ok _ => if eth = e then 1 else 0
     | .error _ => 0
-  | .env _ => 0
+  | _ => 0
 
 /-- number of successful claims for the Ethereum address string `e` along a history -/
 def claimsFor (C : Crypto) (s : State) : List Op → Bytes → Nat
@@ -476,6 +477,7 @@ theorem step'_counts (C : Crypto) (s : State) (op : Op) (e : Bytes) :
       · simp only [Except.ok.injEq] at h; subst h; rfl
       · cases h
     · rfl
+  | other x => simp [step', step, okClaimFor]
 
 /-- the on-chain counter is exactly the number of successful claims -/
 theorem C16_counter_counts_claims (C : Crypto) (s : State) (ops : List Op) (e : Bytes) :
@@ -492,6 +494,7 @@ theorem step'_limit (C : Crypto) (s : State) (op : Op) (e : Bytes)
   rw [step'_counts]
   cases op with
   | env ev => simp [okClaimFor]; exact h
+  | other x => simp [okClaimFor]; exact h
   | claim sender eth sig =>
     simp only [okClaimFor]
     cases hc : claim C s sender eth sig with
@@ -531,7 +534,7 @@ theorem C16_claims_le_limit (C : Crypto) (s : State) (ops : List Op) (e : Bytes)
 def okClaim (C : Crypto) (s : State) (op : Op) : Nat :=
   match op with
   | .claim sender eth sig => match claim C s sender eth sig with | .ok _ => 1 | .error _ => 0
-  | .env _ => 0
+  | _ => 0
 
 /-- number of successful claims along a history -/
 def totalClaims (C : Crypto) (s : State) : List Op → Nat
@@ -546,7 +549,7 @@ def fundedTo (a : Bytes) : List Op → Nat
 
 def notSelfClaim (self : Bytes) : Op → Prop
   | .claim sender _ _ => sender ≠ self
-  | .env _ => True
+  | _ => True
 
 theorem envStep_bal (e e' : Env) (op : EnvOp) (hop : ∀ to amt, op ≠ .fund to amt) (h : e.step op = .ok e') :
     e'.bal = e.bal := by
@@ -573,6 +576,15 @@ theorem envStep_bal (e e' : Env) (op : EnvOp) (hop : ∀ to amt, op ≠ .fund to
     · split at h
       · simp only [Except.ok.injEq] at h; subst h; rfl
       · cases h
+  | cwlFreeze sender =>
+    simp only [Env.step] at h
+    split at h
+    · cases h
+    · split at h
+      · simp only [Except.ok.injEq] at h; subst h; rfl
+      · cases h
+  | setCwl w => simp only [Env.step, Except.ok.injEq] at h; subst h; rfl
+  | time t => simp only [Env.step, Except.ok.injEq] at h; subst h; rfl
 
 theorem step'_env_bal (C : Crypto) (s : State) (op : EnvOp) (hop : ∀ to amt, op ≠ .fund to amt) :
     (step' C s (.env op)).env.bal = s.env.bal := by
@@ -608,12 +620,23 @@ theorem step'_self_balance (C : Crypto) (s : State) (op : Op) (hns : notSelfClai
     | cwlAdmins sender admins =>
       have := step'_env_bal C s (.cwlAdmins sender admins) (by intro to amt h; cases h)
       simp [this, okClaim, fundedTo]
+    | cwlFreeze sender =>
+      have := step'_env_bal C s (.cwlFreeze sender) (by intro to amt h; cases h)
+      simp [this, okClaim, fundedTo]
+    | setCwl w =>
+      have := step'_env_bal C s (.setCwl w) (by intro to amt h; cases h)
+      simp [this, okClaim, fundedTo]
+    | time t =>
+      have := step'_env_bal C s (.time t) (by intro to amt h; cases h)
+      simp [this, okClaim, fundedTo]
+  | other x => simp [step', step, okClaim, fundedTo]
 
 theorem fundedTo_cons (a : Bytes) (op : Op) (ops : List Op) :
     fundedTo a (op :: ops) = fundedTo a [op] + fundedTo a ops := by
   cases op with
   | claim _ _ _ => simp [fundedTo]
   | env ev => cases ev <;> simp [fundedTo]
+  | other _ => simp [fundedTo]
 
 /-- "accounting of total paid": over any history, what left the contract is exactly
 `airdrop_amount × (number of successful claims)`; nothing else ever leaves it. -/
@@ -709,6 +732,206 @@ theorem C16_fresh_contract (C : Crypto) (e : Env) (self sender : Bytes) (funds :
     rw [(C16_config_immutable C s ops).2.1] at hab
     exact C16_text_injective s.template a b hp.2.1 hab
 
+/-! ## per Ethereum ADDRESS (the 20 bytes), not per spelling of it
+
+`C16_limit` / `C16_claims_le_limit` bound the claims per address *string*: eligibility (`whitelist-immutable`'s map) and
+the counter (`ADDRS_TO_MINT_COUNT`) are keyed by the string as submitted, while `decode_address` ignores the case of the
+hex digits. The property text says "each Ethereum address". What the code guarantees for an address is
+`limit × (number of listed spellings of it)` (`C16_limit_per_address_spellings`); the literal clause holds when no address
+is listed under two spellings (`C16_limit_per_address_partial`) and FAILS otherwise
+(`C16_limit_per_address_counterexample`, replayed on the real contracts: `corpus/C16/case-variant-double-claim.json`). -/
+
+/-- one if `op` is a successful claim whose address string satisfies `P` -/
+def okClaimP (C : Crypto) (s : State) (op : Op) (P : Bytes → Bool) : Nat :=
+  match op with
+  | .claim sender eth sig =>
+    match claim C s sender eth sig with
+    | .ok _ => if P eth then 1 else 0
+    | .error _ => 0
+  | _ => 0
+
+/-- number of successful claims along a history whose address string satisfies `P` -/
+def claimsP (C : Crypto) (s : State) : List Op → (Bytes → Bool) → Nat
+  | [], _ => 0
+  | op :: ops, P => okClaimP C s op P + claimsP C (step' C s op) ops P
+
+/-- the address strings that denote the 20-byte address `a` -/
+def spells (a : Bytes) : Bytes → Bool := fun e => decide (decodeAddress e = some a)
+
+def sumOver (L : List Bytes) (f : Bytes → Nat) : Nat := (L.map f).sum
+
+theorem sumOver_add (L : List Bytes) (f g : Bytes → Nat) :
+    sumOver L (fun e => f e + g e) = sumOver L f + sumOver L g := by
+  induction L with
+  | nil => simp [sumOver]
+  | cons x xs ih => simp only [sumOver, List.map_cons, List.sum_cons] at ih ⊢; omega
+
+theorem sumOver_le (L : List Bytes) (f : Bytes → Nat) (k : Nat) (h : ∀ e ∈ L, f e ≤ k) :
+    sumOver L f ≤ L.length * k := by
+  induction L with
+  | nil => simp [sumOver]
+  | cons x xs ih =>
+    have h1 := h x (by simp)
+    have h2 := ih (fun e he => h e (by simp [he]))
+    simp only [sumOver, List.map_cons, List.sum_cons, List.length_cons] at h2 ⊢
+    rw [Nat.add_mul]; omega
+
+theorem one_le_sumOver_ite (L : List Bytes) (x : Bytes) (h : x ∈ L) :
+    1 ≤ sumOver L (fun e => if x = e then 1 else 0) := by
+  induction L with
+  | nil => simp at h
+  | cons y ys ih =>
+    simp only [sumOver, List.map_cons, List.sum_cons]
+    by_cases hxy : x = y
+    · simp [hxy]
+    · have : x ∈ ys := by simpa [hxy] using h
+      have := ih this
+      simp only [sumOver] at this
+      omega
+
+theorem okClaimP_le (C : Crypto) (s : State) (op : Op) (P : Bytes → Bool) (L : List Bytes)
+    (hL : ∀ e, s.eligible.contains e = true → P e = true → e ∈ L) :
+    okClaimP C s op P ≤ sumOver L (okClaimFor C s op) := by
+  cases op with
+  | env ev => simp [okClaimP]
+  | other x => simp [okClaimP]
+  | claim sender eth sig =>
+    cases h : claim C s sender eth sig with
+    | error x => simp [okClaimP, h]
+    | ok s' =>
+      by_cases hp : P eth = true
+      · have hel := (C16_claim_only_if C s s' sender eth sig h).1
+        have hmem := hL eth hel hp
+        have hf : okClaimFor C s (.claim sender eth sig) = fun e => if eth = e then 1 else 0 := by
+          funext e; simp [okClaimFor, h]
+        rw [hf]
+        have := one_le_sumOver_ite L eth hmem
+        simp [okClaimP, h, hp]; exact this
+      · simp [okClaimP, h, hp]
+
+theorem claimsP_le (C : Crypto) (s : State) (ops : List Op) (P : Bytes → Bool) (L : List Bytes)
+    (hL : ∀ e, s.eligible.contains e = true → P e = true → e ∈ L) :
+    claimsP C s ops P ≤ sumOver L (claimsFor C s ops) := by
+  induction ops generalizing s with
+  | nil => simp [claimsP]
+  | cons op ops ih =>
+    have h1 := okClaimP_le C s op P L hL
+    have h2 := ih (step' C s op) (by rw [(step'_frame C s op).2.2.2.1]; exact hL)
+    have hf : claimsFor C s (op :: ops) = fun e => okClaimFor C s op e + claimsFor C (step' C s op) ops e := by
+      funext e; simp [claimsFor]
+    rw [hf, sumOver_add]
+    simp only [claimsP]; omega
+
+/-- What the code guarantees per Ethereum address, for every history of a fresh contract: at most
+`limit × (number of listed strings that spell it)`. `L` is any list containing the listed spellings of `a`
+(for instance `s.eligible.filter (spells a)` with duplicates removed). -/
+theorem C16_limit_per_address_spellings (C : Crypto) (s : State) (ops : List Op) (a : Bytes) (L : List Bytes)
+    (h0 : ∀ e, s.counts e = 0)
+    (hL : ∀ e, s.eligible.contains e = true → decodeAddress e = some a → e ∈ L) :
+    claimsP C s ops (spells a) ≤ L.length * s.perAddressLimit := by
+  have h1 := claimsP_le C s ops (spells a) L (by intro e he hp; exact hL e he (by simpa [spells] using hp))
+  have h2 := sumOver_le L (claimsFor C s ops) s.perAddressLimit
+    (fun e _ => C16_claims_le_limit C s ops e (h0 e))
+  omega
+
+/- FULL clause ("Each Ethereum address claims at most the per-address limit"), false for the code as it is:
+   `∀ C s ops a, (∀ e, s.counts e = 0) → claimsP C s ops (spells a) ≤ s.perAddressLimit`
+   — see `C16_limit_per_address_counterexample`. Proved below under the hypothesis that the list (fixed by whoever
+   instantiates the airdrop, never validated by the contract) does not contain one address under two spellings. -/
+theorem C16_limit_per_address_partial (C : Crypto) (s : State) (ops : List Op) (a : Bytes)
+    (h0 : ∀ e, s.counts e = 0)
+    (hinj : ∀ e1 e2, s.eligible.contains e1 = true → s.eligible.contains e2 = true →
+      decodeAddress e1 = some a → decodeAddress e2 = some a → e1 = e2) :
+    claimsP C s ops (spells a) ≤ s.perAddressLimit := by
+  by_cases hex : ∃ e0, s.eligible.contains e0 = true ∧ decodeAddress e0 = some a
+  · obtain ⟨e0, h1, h2⟩ := hex
+    have := C16_limit_per_address_spellings C s ops a [e0] h0
+      (by intro e he hd; simp [hinj e e0 he h1 hd h2])
+    simpa using this
+  · have := C16_limit_per_address_spellings C s ops a [] h0
+      (by intro e he hd; exact absurd ⟨e, he, hd⟩ hex)
+    simp at this; omega
+
+/-- the whole airdrop pays out at most `amount × limit × (length of the list)`: total successful claims over any
+history of a fresh contract -/
+theorem C16_total_claims_bound (C : Crypto) (s : State) (ops : List Op) (h0 : ∀ e, s.counts e = 0) :
+    totalClaims C s ops ≤ s.eligible.length * s.perAddressLimit := by
+  have ht : ∀ (s : State) (ops : List Op), totalClaims C s ops = claimsP C s ops (fun _ => true) := by
+    intro s ops
+    induction ops generalizing s with
+    | nil => rfl
+    | cons op ops ih =>
+      have : okClaim C s op = okClaimP C s op (fun _ => true) := by
+        cases op with
+        | claim sender eth sig => simp only [okClaim, okClaimP]; split <;> simp
+        | env ev => rfl
+        | other x => rfl
+      simp only [totalClaims, claimsP, ih, this]
+  rw [ht]
+  have h1 := claimsP_le C s ops (fun _ => true) s.eligible (by intro e he _; simpa using he)
+  have h2 := sumOver_le s.eligible (claimsFor C s ops) s.perAddressLimit
+    (fun e _ => C16_claims_le_limit C s ops e (h0 e))
+  omega
+
+/-! ## nobody else is paid, nothing else does anything -/
+
+/-- `x` is the sender of a claim or the target of outside funding -/
+def touches (x : Bytes) : Op → Prop
+  | .claim sender _ _ => sender = x
+  | .env (.fund to _) => to = x
+  | _ => False
+
+theorem step'_bal_other (C : Crypto) (s : State) (op : Op) (x : Bytes) (hx : x ≠ s.self) (ht : ¬ touches x op) :
+    (step' C s op).env.bal x = s.env.bal x := by
+  cases op with
+  | claim sender eth sig =>
+    simp only [step', step]
+    cases h : claim C s sender eth sig with
+    | error e => rfl
+    | ok s' =>
+      have := (C16_claim_effects C s s' sender eth sig h).2.1 x (fun e => ht (by simp [touches, e])) hx
+      simpa using this
+  | other y => simp [step', step]
+  | env ev =>
+    cases ev with
+    | fund to amt =>
+      have : x ≠ to := fun e => ht (by simp [touches, e])
+      simp [step', step, Env.step, credit, this]
+    | cwlAdd a b => rw [step'_env_bal C s _ (by intro to amt h; cases h)]
+    | cwlRemove a b => rw [step'_env_bal C s _ (by intro to amt h; cases h)]
+    | cwlAdmins a b => rw [step'_env_bal C s _ (by intro to amt h; cases h)]
+    | cwlFreeze a => rw [step'_env_bal C s _ (by intro to amt h; cases h)]
+    | setCwl w => rw [step'_env_bal C s _ (by intro to amt h; cases h)]
+    | time t => rw [step'_env_bal C s _ (by intro to amt h; cases h)]
+
+/-- "pays … to the caller" on histories: an account that is never the caller of a claim (and is not funded from outside)
+never receives or loses anything, whatever claims others make — a claim cannot be made to pay a third party. -/
+theorem C16_third_party_untouched (C : Crypto) (s : State) (ops : List Op) (x : Bytes) (hx : x ≠ s.self)
+    (h : ∀ op ∈ ops, ¬ touches x op) : (run C s ops).env.bal x = s.env.bal x := by
+  induction ops generalizing s with
+  | nil => rfl
+  | cons op ops ih =>
+    have h1 := step'_bal_other C s op x hx (h op (by simp))
+    have h2 := ih (step' C s op) (by rw [(step'_frame C s op).1]; exact hx) (fun o ho => h o (by simp [ho]))
+    simp only [run, List.foldl_cons] at h2 ⊢
+    rw [h2, h1]
+
+/-- Any message other than `ClaimAirdrop` (to the airdrop contract or its whitelist-immutable) is refused and changes
+nothing. This RESTATES that the model has no other message (`Op.other`); that the code has none is validated by the
+harness (run-time schema enumeration, raw-JSON `exec_raw` / `sudo` / `migrate` ops under the balance / list / counter /
+whitelist monitors). -/
+theorem C16_other_messages_no_effect (C : Crypto) (s : State) (x : Bytes) : step' C s (.other x) = s := by
+  simp [step', step]
+
+/-- the claims a history makes do not depend on which collection whitelist happens to be attached for the counter
+bookkeeping: swapping the whitelist or letting time pass leaves counters, list, limit and balances alone -/
+theorem C16_env_change_frame (C : Crypto) (s : State) (w : Option CollWl) (t : Nat) :
+    (step' C s (.env (.setCwl w))).counts = s.counts ∧ (step' C s (.env (.setCwl w))).env.bal = s.env.bal ∧
+    (step' C s (.env (.setCwl w))).env.cwl = w ∧
+    (step' C s (.env (.time t))).counts = s.counts ∧ (step' C s (.env (.time t))).env.bal = s.env.bal ∧
+    (step' C s (.env (.time t))).env.cwl = s.env.cwl := by
+  simp [step', step, Env.step]
+
 /-! ## non-vacuity: a concrete world in which claims succeed and then hit the limit -/
 
 namespace Example
@@ -747,6 +970,34 @@ example : (match instantiate { bal := fun x => if x = alice then 200000000 else 
       [⟨NATIVE, 150000000⟩] { template := WALLET, amount := 10000000, addresses := [eth], perAddressLimit := 1 } with
     | .ok s => (s.env.bal me, s.env.bal alice) | .error _ => (0, 0)) = (50000000, 50000000) := by decide
 end Example
+
+/-! ### the literal per-address clause fails: one key, two spellings on the list, `2 × limit` claims -/
+namespace Example3
+/-- `0x` + forty `a` / forty `A`: two spellings of the address `aa…aa` (20 bytes `0xaa`) -/
+def ethLower : Bytes := [48, 120] ++ List.replicate 40 97
+def ethUpper : Bytes := [48, 120] ++ List.replicate 40 65
+def addr : Bytes := List.replicate 20 170
+/-- hex of 44 bytes `0x00`, 20 bytes `0xaa`, then `v = 0x1b`: under `Example.toy` the recovered key's address is `addr` -/
+def sig : Bytes := List.replicate 88 48 ++ List.replicate 40 97 ++ [49, 98]
+
+def s0 : State :=
+  { env := { bal := fun x => if x = Example.me then 25 else 0,
+             cwl := some { members := [], memberLimit := 5, admins := [Example.me], mutable := true } },
+    self := Example.me, template := WALLET, amount := 10, eligible := [ethLower, ethUpper], perAddressLimit := 1,
+    counts := fun _ => 0 }
+
+def ops : List Op := [.claim Example.alice ethLower sig, .claim Example.alice ethUpper sig]
+
+example : decodeAddress ethLower = some addr ∧ decodeAddress ethUpper = some addr := by decide
+end Example3
+
+/-- Counter-example to the literal clause "each Ethereum address claims at most the per-address limit": a fresh contract
+with limit 1 whose list names one address in lower and in upper case pays that one key twice (both claims signed by the
+same key for the same wallet; the signature does not even have to change). -/
+theorem C16_limit_per_address_counterexample :
+    ∃ (C : Crypto) (s : State) (ops : List Op) (a : Bytes),
+      (∀ e, s.counts e = 0) ∧ s.perAddressLimit < claimsP C s ops (spells a) :=
+  ⟨Example.toy, Example3.s0, Example3.ops, Example3.addr, fun _ => rfl, by decide⟩
 
 /-! ## non-vacuity of the replay theorems: primitives without collisions on the data, a valid signature, no replay -/
 
